@@ -235,7 +235,7 @@ func c14Setters(c *hx.Ctx, r *hx.RNG) {
 	case 0:
 		x := gen64(r)
 		p = setterPrec(r, len(fmt.Sprint(x)))
-		z = newRecv(p, mode)
+		z = usedRecv(r, p, mode)
 		pi = hx.Try(func() { z.SetUint64(x) })
 		o = oracle.Ident(valOfBig(new(big.Int).SetUint64(x), 0))
 		what, cls = fmt.Sprintf("SetUint64(%d) prec=%d mode=%s", x, p, oracle.ModeNames[mode]), "SetUint64"
@@ -245,7 +245,7 @@ func c14Setters(c *hx.Ctx, r *hx.RNG) {
 			x = math.MinInt64
 		}
 		p = setterPrec(r, len(fmt.Sprint(x)))
-		z = newRecv(p, mode)
+		z = usedRecv(r, p, mode)
 		pi = hx.Try(func() { z.SetInt64(x) })
 		o = oracle.Ident(valOfBig(big.NewInt(x), 0))
 		what, cls = fmt.Sprintf("SetInt64(%d) prec=%d mode=%s", x, p, oracle.ModeNames[mode]), "SetInt64"
@@ -275,7 +275,7 @@ func c14Setters(c *hx.Ctx, r *hx.RNG) {
 			b.Neg(b)
 		}
 		p = setterPrec(r, int(oracle.Digits(new(big.Int).Abs(b))))
-		z = newRecv(p, mode)
+		z = usedRecv(r, p, mode)
 		bc := new(big.Int).Set(b)
 		pi = hx.Try(func() { z.SetInt(b) })
 		if bc.Cmp(b) != 0 {
@@ -302,7 +302,7 @@ func c14Setters(c *hx.Ctx, r *hx.RNG) {
 			q.Neg(q)
 		}
 		p = setterPrec(r, 0)
-		z = newRecv(p, mode)
+		z = usedRecv(r, p, mode)
 		qc := new(big.Rat).Set(q)
 		pi = hx.Try(func() { z.SetRat(q) })
 		if qc.Cmp(q) != 0 {
